@@ -39,6 +39,9 @@ ASSUMPTIONS = [
     "the reference evaluator follows Python's lazy semantics (the engine may evaluate more, never less)",
 ]
 MIN_NONTRIVIAL_FRACTION = 0.2
+CASE_CPU_S = 40                 # in-process cases: far above 20*timeout+2 s for every timeout the generator draws
+CPU_SIGNATURE = "resource:cpu-bound-exceeded:in-process"
+RULE += " Added after the seeded rounds: " + 'Every case may carry `pre`: the same or other expressions evaluated first by fresh engines, so a result that depends on what the process evaluated before is found and reproducible from the replay file.'
 
 ALLOWED_NODES = (ast.Constant, ast.BinOp, ast.UnaryOp, ast.BoolOp, ast.Compare, ast.IfExp, ast.List, ast.Tuple, ast.Name, ast.Call)
 ALLOWED_BINOPS = (ast.Add, ast.Sub, ast.Mult, ast.Div, ast.FloorDiv, ast.Mod, ast.Pow)
@@ -169,6 +172,10 @@ def _expr(draw, depth):
 
 _RAW = st.one_of(
     st.text(max_size=30),
+    # an opener followed by a pump of one or two characters, never closed / closed late: the shape that is pathological for text scanning before parsing
+    st.tuples(st.sampled_from(["'", '"', "(", "[", "f'", "max('", "1 and '", '1 < "', "lookup('"]),
+              st.sampled_from(["\\", "\\'", "'", '"', " ", "a", "(", "\t", "and ", "<", "\\\\ "]), st.integers(1, 150),
+              st.sampled_from(["", "", "'", '"', ")", "!"])).map(lambda t: t[0] + t[1] * t[2] + t[3]),
     st.sampled_from(["\x00", "1 + \x00", "\ud800 + 1", "'\udfff'", "", " ", "\n", "1 +", "((((", "{", "[", "{'a': 1}", "[1, 2", "{\"k\": [1, 2]}", "lookup(", "lookup(1)", "LOOKUP(2)",
                      " lookup(3)", "lookup (4)", "true and false", "1 if true else 2", "'<' + 'x'", "x = 1", "import os", "1; 2", "lambda: 1", "# comment", "1 # c", "\t1", "1\n+2",
                      "__import__('os').system('true')", "().__class__.__bases__[0].__subclasses__()", "eval('1')", "getattr(1, 'real')", "open('/etc/passwd')", "[].append", "{}.get",
@@ -215,6 +222,24 @@ def _bombs(tier):
     return out
 
 
+def _scan_bombs(tier):
+    """inputs that are pathological for text scanning done before / instead of parsing (quote masking, keyword detection, bracket
+    matching): an opener followed by a long pump of one or two characters, never closed"""
+    openers = ["'", '"', "'" * 3, "(", "[", "f'", "max('", "1 and '", '1 < "']
+    pumps = ["\\", "\\'", "'", '"', " ", "a", "(", "\t", "\\\\ ", "and ", "<"]
+    sizes = (60, 3000) if tier == "quick" else (30, 60, 200, 3000, 9000)
+    out = []
+    for i, o in enumerate(openers):
+        for j, pu in enumerate(pumps):
+            if tier == "quick" and (i + j) % 5:
+                continue
+            for n in sizes:
+                out.append(o + pu * n)
+                if tier != "quick":
+                    out.append(o + pu * n + "!")
+    return out
+
+
 def enumerate_cases(tier):
     yield {"kind": "table"}
     base = {"kind": "expr", "tools": ["lookup"], "silent": True, "max_ros": 1000.0, "entry": "metabolize"}
@@ -244,6 +269,8 @@ def enumerate_cases(tier):
         yield dict(base, expr=name, pathway="math")
     for i, b in enumerate(_bombs(tier)):
         yield {"kind": "bomb", "expr": b, "pathway": "auto" if i % 3 else "math", "timeout": 0.2, "tools": ["lookup"]}
+    for b in _scan_bombs(tier):
+        yield {"kind": "bomb", "expr": b, "pathway": "auto", "timeout": 0.2, "tools": ["lookup"], "family": "text-scan"}
 
 
 # ---------------------------------------------------------------------------
@@ -613,7 +640,7 @@ def _judge_bomb(case):
         p = subprocess.run([sys.executable, "-c", _CHILD], input=json.dumps(cfg), capture_output=True, text=True, timeout=cpu * 15 + 60, env=env)
     except subprocess.TimeoutExpired:
         raise HarnessError("sandbox child exceeded the wall-clock supervisor (machine overloaded?)")
-    family = _bomb_family(case["expr"])
+    family = case.get("family") or _bomb_family(case["expr"])
     d = {"expr": case["expr"][:120], "timeout": timeout, "cpu_budget_s": cpu, "returncode": p.returncode, "stderr": p.stderr[-200:]}
     out.label("bomb:" + family)
     if p.returncode != 0:
